@@ -31,7 +31,8 @@ LEAF_SHAPES = [[], [3], [2, 3], [3, 2], [2, 2, 3], [1, 3], [3, 3], [2, 1]]
 UNARY = ["tanh", "sigmoid", "neg", "mulc", "sq", "clone", "exp_b", "log1p_sq", "sqrt1p_sq", "addc"]
 BINARY = ["add", "mul", "sub", "div1"]
 SHAPE = ["reshape_flat", "transpose", "movedim", "unsqueeze", "squeeze", "flatten"]
-OTHER = ["sum", "mean", "matmul", "concat", "stack", "unbind", "getitem", "log_softmax", "softmax", "linear"]
+OTHER = ["sum", "mean", "matmul", "concat", "stack", "unbind", "getitem", "log_softmax", "softmax", "linear", "mse_loss",
+         "batch_norm", "bce_logits", "addmm"]
 ALL_OPS = UNARY + BINARY * 3 + SHAPE + OTHER * 2
 
 
@@ -118,6 +119,16 @@ def apply_op(op, xs, prm):
         return sg.softmax(a, prm["dim"])
     if op == "linear":
         return sg.linear(a, xs[1])
+    if op == "mse_loss":
+        return sg.mse_loss(a, xs[1])
+    if op == "bce_logits":
+        # the target is a constant: only the symmetric loss (mse) promises a gradient for its second argument
+        tgt = Tensor(((np.arange(a.data.size).reshape(a.shape) * 3 % 5) / 4.0).astype(a.dtype))
+        return sg.binary_cross_entropy_with_logits(a, tgt)
+    if op == "batch_norm":
+        return sg.batch_norm(a)
+    if op == "addmm":
+        return sg.addmm(xs[2], a, xs[1])
     raise KeyError(op)
 
 
@@ -196,6 +207,26 @@ def resolve(case):
             elif op == "linear":
                 if nd >= 2 and b.ndim == 2 and b.shape[1] == a.shape[-1]:
                     inputs = [ia, ib]
+                else:
+                    ok = False
+            elif op == "mse_loss":
+                inputs = [ia, ib] if tuple(a.shape) == tuple(b.shape) else [ia, ia]
+            elif op == "batch_norm":
+                # training-mode normalisation over all dims but 1: needs >= 2 values per channel, pairwise distinct data
+                if nd < 2 or a.data.size // a.shape[1] < 2 or np.unique(a.data).size < a.data.size:
+                    ok = False
+            elif op == "addmm":
+                if nd == 2 and b.ndim == 2 and a.shape[1] == b.shape[0]:
+                    bias_id = ins["q"] % n
+                    bias = vals[bias_id]
+                    try:
+                        np.broadcast_shapes(bias.shape, (a.shape[0], b.shape[1]))
+                        okb = len(np.broadcast_shapes(bias.shape, (a.shape[0], b.shape[1]))) == 2
+                    except ValueError:
+                        okb = False
+                    inputs = [ia, ib, bias_id] if okb else [ia, ib, ia] if tuple(a.shape) == (a.shape[0], b.shape[1]) else None
+                    if inputs is None:
+                        ok = False
                 else:
                     ok = False
             if not ok:
